@@ -1,2 +1,436 @@
+/* unit ops around msa_io.c (readers, writers, format detection), msa_misc.c (GCG checksums), msa_op.c (detect_aligned,
+   detect_alphabet, merge_msa through kalign_read_input).
+
+   read <hex> [<hex> ...]          kalign_read_input on one temp file per argument, all into the same msa (merge_msa)
+   read_as <fmt> <hex>             read_file_stdin + read_fasta(1)/read_msf(2)/read_clu(3) + detect_alphabet + detect_aligned
+   detect_format <hex>             detect_alignment_format on the lines of the file
+   parse_format <token>            parse_format_argument ("-" = NULL pointer)
+   write <fmt> <version> <biotype> <L> <alnlen> <basename_hex> [<name_hex>:<row> ...]
+                                   kalign_write_msa of an msa built here (aligned = ALN_STATUS_FINAL); hex of the file, date masked
+   write_read <fmt> <version> <biotype> <L> <alnlen> <basename_hex> [<name_hex>:<row> ...]
+                                   the same file read back by kalign_read_input
+   gcg <row>                       GCGchecksum
+   dump format (read, read_as, write_read):
+     fmt=<f,..> n=<numseq> aligned=<status> bio=<biotype> L=<L> lf=<byte:count,..|-> |[ <name_hex> <residues|.> <gaps> [; ...]]
+   or `null` (OK, *msa == NULL) or `fail` (FAIL returned). */
 #include "kvh.h"
-struct kv_op kv_ops_io[] = { {NULL, NULL} };
+#include <unistd.h>
+#include <fcntl.h>
+#include <ctype.h>
+#include <sys/stat.h>
+#include <sys/wait.h>
+#include <dirent.h>
+#include "tldevel.h"
+#include "msa_struct.h"
+#include "msa_alloc.h"
+#include "msa_io.h"
+#include "msa_op.h"
+#include "msa_misc.h"
+
+int kv_io_detect_format(char *path, int *type);
+int kv_io_read_as(char *path, int type, struct msa **out);
+int kv_io_parse_format(char *format, int *type);
+
+static char tmpdir[512] = "";
+
+static void rm_tmpdir(void)
+{
+        if(tmpdir[0]){ rmdir(tmpdir); }
+}
+
+static const char *get_tmpdir(void)
+{
+        if(!tmpdir[0]){
+                const char *base = getenv("KVH_TMP");
+                if(!base){ base = "/tmp"; }
+                snprintf(tmpdir, sizeof(tmpdir), "%s/kvhio_XXXXXX", base);
+                if(!mkdtemp(tmpdir)){ perror("mkdtemp"); exit(3); }
+                atexit(rm_tmpdir);
+        }
+        return tmpdir;
+}
+
+static int write_file(const char *path, const unsigned char *b, int n)
+{
+        FILE *f = fopen(path, "wb");
+        if(!f){ return 1; }
+        if(n && fwrite(b, 1, n, f) != (size_t)n){ fclose(f); return 1; }
+        fclose(f);
+        return 0;
+}
+
+static unsigned char *slurp(const char *path, int *n)
+{
+        FILE *f = fopen(path, "rb");
+        if(!f){ *n = -1; return NULL; }
+        fseek(f, 0, SEEK_END);
+        long sz = ftell(f);
+        fseek(f, 0, SEEK_SET);
+        unsigned char *b = malloc(sz + 1);
+        if(sz && fread(b, 1, sz, f) != (size_t)sz){ fclose(f); free(b); *n = -1; return NULL; }
+        fclose(f);
+        b[sz] = 0;
+        *n = (int)sz;
+        return b;
+}
+
+static void dump_msa(FILE *out, const char *fmt, struct msa *m)
+{
+        fprintf(out, "fmt=%s n=%d aligned=%d bio=%d L=%d lf=", fmt, m->numseq, m->aligned, (int)m->biotype, (int)m->L);
+        int any = 0;
+        for(int i = 0; i < 128; i++){
+                if(m->letter_freq[i]){
+                        fprintf(out, "%s%d:%d", any ? "," : "", i, m->letter_freq[i]);
+                        any = 1;
+                }
+        }
+        if(!any){ fputc('-', out); }
+        fprintf(out, " |");
+        for(int i = 0; i < m->numseq; i++){
+                struct msa_seq *s = m->sequences[i];
+                if(i){ fprintf(out, " ;"); }
+                fputc(' ', out);
+                kv_print_hex(out, (unsigned char*)s->name, (int)strlen(s->name));
+                fputc(' ', out);
+                if(s->len == 0){ fputc('.', out); }
+                for(int j = 0; j < s->len; j++){ fputc(s->seq[j], out); }
+                fputc(' ', out);
+                kv_print_ints(out, s->gaps, s->len + 1);
+        }
+}
+
+/* kalign_read_input on every file in turn; prints the dump */
+static void read_files(FILE *out, char **paths, int n)
+{
+        struct msa *msa = NULL;
+        char fmts[1024]; int fl = 0;
+        int rc = OK;
+        fmts[0] = 0;
+        for(int i = 0; i < n; i++){
+                int t = 0;
+                kv_io_detect_format(paths[i], &t);
+                if(fl < 1000){ fl += snprintf(fmts + fl, sizeof(fmts) - fl, "%s%d", i ? "," : "", t); }
+        }
+        for(int i = 0; i < n; i++){
+                rc = kalign_read_input(paths[i], &msa, 1);
+                if(rc != OK){ break; }
+        }
+        if(rc != OK){
+                fprintf(out, "fail");
+        }else if(!msa){
+                fprintf(out, "null");
+        }else{
+                dump_msa(out, fmts, msa);
+        }
+        if(msa){ kalign_free_msa(msa); }
+}
+
+static int op_read(int argc, char **argv, FILE *out)
+{
+        if(argc < 1 || argc > 64) return 1;
+        unsigned char **bufs = calloc(argc, sizeof(*bufs));
+        int *lens = calloc(argc, sizeof(int));
+        char **paths = calloc(argc, sizeof(char*));
+        int bad = 0;
+        for(int i = 0; i < argc; i++){
+                if(kv_unhex(argv[i], &bufs[i], &lens[i])){ bad = 1; break; }
+        }
+        if(!bad){
+                for(int i = 0; i < argc; i++){
+                        paths[i] = malloc(600);
+                        snprintf(paths[i], 600, "%s/in_%d", get_tmpdir(), i);
+                        if(write_file(paths[i], bufs[i], lens[i])){ perror("write_file"); exit(3); }
+                }
+                read_files(out, paths, argc);
+                for(int i = 0; i < argc; i++){ unlink(paths[i]); free(paths[i]); }
+        }
+        for(int i = 0; i < argc; i++){ free(bufs[i]); }
+        free(bufs); free(lens); free(paths);
+        return bad;
+}
+
+static int op_read_as(int argc, char **argv, FILE *out)
+{
+        if(argc != 2) return 1;
+        int type = 0;
+        if(strcmp(argv[0], "1") == 0) type = FORMAT_FA;
+        else if(strcmp(argv[0], "2") == 0) type = FORMAT_MSF;
+        else if(strcmp(argv[0], "3") == 0) type = FORMAT_CLU;
+        else return 1;
+        unsigned char *b = NULL; int n = 0;
+        if(kv_unhex(argv[1], &b, &n)) return 1;
+        char path[600];
+        snprintf(path, sizeof(path), "%s/in_0", get_tmpdir());
+        if(write_file(path, b, n)){ perror("write_file"); exit(3); }
+        struct msa *m = NULL;
+        int rc = kv_io_read_as(path, type, &m);
+        if(rc != OK){
+                fprintf(out, "fail");
+        }else{
+                dump_msa(out, argv[0], m);
+                kalign_free_msa(m);
+        }
+        unlink(path);
+        free(b);
+        return 0;
+}
+
+static int op_detect_format(int argc, char **argv, FILE *out)
+{
+        if(argc != 1) return 1;
+        unsigned char *b = NULL; int n = 0;
+        if(kv_unhex(argv[0], &b, &n)) return 1;
+        char path[600];
+        snprintf(path, sizeof(path), "%s/in_0", get_tmpdir());
+        if(write_file(path, b, n)){ perror("write_file"); exit(3); }
+        int t = 0;
+        int rc = kv_io_detect_format(path, &t);
+        if(rc != OK){ fprintf(out, "fail"); }else{ fprintf(out, "%d", t); }
+        unlink(path);
+        free(b);
+        return 0;
+}
+
+static int op_parse_format(int argc, char **argv, FILE *out)
+{
+        if(argc != 1) return 1;
+        int t = 0;
+        int rc = kv_io_parse_format(strcmp(argv[0], "-") == 0 ? NULL : argv[0], &t);
+        if(rc != OK){ fprintf(out, "fail"); }else{ fprintf(out, "%d", t); }
+        return 0;
+}
+
+static int row_ok(const char *r)
+{
+        for(; *r; r++){
+                unsigned char c = (unsigned char)*r;
+                if(!((c >= 'A' && c <= 'Z') || (c >= 'a' && c <= 'z') || c == '-')) return 0;
+        }
+        return 1;
+}
+
+/* basename: 1..200 printable non-blank ASCII bytes without '/', not "." or ".." */
+static int basename_ok(const unsigned char *b, int n)
+{
+        if(n < 1 || n > 200) return 0;
+        for(int i = 0; i < n; i++){ if(b[i] <= 32 || b[i] >= 127 || b[i] == '/') return 0; }
+        if(n == 1 && b[0] == '.') return 0;
+        if(n == 2 && b[0] == '.' && b[1] == '.') return 0;
+        return 1;
+}
+
+/* decimal digits only, at most 7 of them; -1 otherwise */
+static long strict_nat(const char *s)
+{
+        size_t l = strlen(s);
+        if(l < 1 || l > 7) return -1;
+        for(size_t i = 0; i < l; i++){ if(s[i] < '0' || s[i] > '9') return -1; }
+        return strtol(s, NULL, 10);
+}
+
+static void free_built(struct msa *m)
+{
+        if(!m) return;
+        for(int i = 0; i < m->numseq; i++){
+                if(m->sequences[i]){
+                        free(m->sequences[i]->name); free(m->sequences[i]->seq); free(m->sequences[i]->gaps);
+                        free(m->sequences[i]);
+                }
+        }
+        free(m->sequences);
+        free(m);
+}
+
+/* parse the common arguments of write / write_read; returns NULL on a malformed op */
+static struct msa *build_msa(int argc, char **argv, char *path, int pathlen)
+{
+        if(argc < 6) return NULL;
+        long bio = strict_nat(argv[2]); if(bio < 0 || bio > 2) return NULL;
+        long L = strict_nat(argv[3]); if(L < 0 || L > 255) return NULL;
+        long alnlen = strict_nat(argv[4]); if(alnlen < 0 || alnlen > 1000000) return NULL;
+        unsigned char *bn = NULL; int bnl = 0;
+        if(kv_unhex(argv[5], &bn, &bnl)) return NULL;
+        if(!basename_ok(bn, bnl)){ free(bn); return NULL; }
+        snprintf(path, pathlen, "%s/%.*s", get_tmpdir(), bnl, (char*)bn);
+        free(bn);
+        int n = argc - 6;
+        struct msa *m = calloc(1, sizeof(struct msa));
+        m->numseq = n; m->alloc_numseq = n; m->num_profiles = 0;
+        m->aligned = ALN_STATUS_FINAL; m->alnlen = (int)alnlen; m->biotype = (uint8_t)bio; m->L = (uint8_t)L; m->quiet = 1;
+        m->sequences = calloc(n ? n : 1, sizeof(struct msa_seq*));
+        int bad = 0;
+        for(int i = 0; i < n && !bad; i++){
+                char *colon = strchr(argv[6+i], ':');
+                if(!colon){ bad = 1; break; }
+                *colon = 0;
+                const char *row = colon + 1;
+                if(strcmp(row, ".") == 0){ row = ""; }
+                unsigned char *nm = NULL; int nl = 0;
+                int r = kv_unhex(argv[6+i], &nm, &nl);
+                *colon = ':';
+                if(r){ bad = 1; break; }
+                if(memchr(nm, 0, nl) || !row_ok(row) || (long)strlen(row) < alnlen){ free(nm); bad = 1; break; }
+                struct msa_seq *s = calloc(1, sizeof(struct msa_seq));
+                s->name = malloc(nl + 1); memcpy(s->name, nm, nl); s->name[nl] = 0;
+                free(nm);
+                int rl = (int)strlen(row);
+                s->seq = malloc(rl + 1); memcpy(s->seq, row, rl + 1);
+                int res = 0;
+                for(int j = 0; j < rl; j++){ if(row[j] != '-') res++; }
+                s->len = res; s->alloc_len = res + 1; s->rank = i;
+                s->gaps = calloc(res + 2, sizeof(int));
+                m->sequences[i] = s;
+        }
+        if(bad){ free_built(m); return NULL; }
+        return m;
+}
+
+/* replace the strftime text of the MSF header line (third line) by DATE */
+static unsigned char *mask_date(unsigned char *b, int *n)
+{
+        if(*n < 24 || (memcmp(b, "!!AA_MULTIPLE_ALIGNMENT", 23) != 0 && memcmp(b, "!!NA_MULTIPLE_ALIGNMENT", 23) != 0)) return b;
+        int s = 0, line = 0;
+        while(s < *n && line < 2){ if(b[s] == '\n') line++; s++; }
+        int e = s;
+        while(e < *n && b[e] != '\n') e++;
+        /* b[s..e) = " <base>  MSF: <len>  Type: <c>  <date>  Check: <chk>  .." ; base has no blanks */
+        int t = -1, c = -1;
+        for(int i = s; i + 8 <= e; i++){ if(memcmp(b + i, "  Type: ", 8) == 0){ t = i; break; } }
+        for(int i = e - 9; i >= s; i--){ if(memcmp(b + i, "  Check: ", 9) == 0){ c = i; break; } }
+        if(t < 0 || c < 0 || t + 11 > c) return b;
+        int ds = t + 11;
+        unsigned char *o = malloc(*n + 8);
+        memcpy(o, b, ds);
+        memcpy(o + ds, "DATE", 4);
+        memcpy(o + ds + 4, b + c, *n - c);
+        *n = ds + 4 + (*n - c);
+        free(b);
+        return o;
+}
+
+static int op_write(int argc, char **argv, FILE *out)
+{
+        char path[1024];
+        struct msa *m = build_msa(argc, argv, path, sizeof(path));
+        if(!m) return 1;
+        if(strcmp(argv[1], KALIGN_PACKAGE_VERSION) != 0){ fprintf(out, "version-mismatch:%s", KALIGN_PACKAGE_VERSION); free_built(m); return 0; }
+        int rc = kalign_write_msa(m, path, strcmp(argv[0], "-") == 0 ? NULL : argv[0]);
+        if(rc != OK){
+                fprintf(out, "fail");
+        }else{
+                int n = 0;
+                unsigned char *b = slurp(path, &n);
+                if(!b){ fprintf(out, "nofile"); }
+                else{
+                        b = mask_date(b, &n);
+                        kv_print_hex(out, b, n);
+                        free(b);
+                }
+        }
+        unlink(path);
+        free_built(m);
+        return 0;
+}
+
+static int op_write_read(int argc, char **argv, FILE *out)
+{
+        char path[1024];
+        struct msa *m = build_msa(argc, argv, path, sizeof(path));
+        if(!m) return 1;
+        if(strcmp(argv[1], KALIGN_PACKAGE_VERSION) != 0){ fprintf(out, "version-mismatch:%s", KALIGN_PACKAGE_VERSION); free_built(m); return 0; }
+        int rc = kalign_write_msa(m, path, strcmp(argv[0], "-") == 0 ? NULL : argv[0]);
+        if(rc != OK){
+                fprintf(out, "fail");
+        }else{
+                char *paths[1] = { path };
+                read_files(out, paths, 1);
+        }
+        unlink(path);
+        free_built(m);
+        return 0;
+}
+
+static int op_gcg(int argc, char **argv, FILE *out)
+{
+        if(argc != 1) return 1;
+        const char *row = strcmp(argv[0], ".") == 0 ? "" : argv[0];
+        if(!row_ok(row)) return 1;
+        int n = (int)strlen(row);
+        char *c = malloc(n + 1);
+        memcpy(c, row, n + 1);
+        fprintf(out, "%d", GCGchecksum(c, n));
+        free(c);
+        return 0;
+}
+
+/* Run an op in a forked child so that a crash of the library code (signal, sanitizer abort) costs one result line
+   (`fault`) instead of the harness process.  The sanitizer report of the child stays on stderr. */
+static void clean_tmpdir(void)
+{
+        DIR *d = opendir(get_tmpdir());
+        if(!d) return;
+        struct dirent *e;
+        char path[1024];
+        while((e = readdir(d))){
+                if(strcmp(e->d_name, ".") == 0 || strcmp(e->d_name, "..") == 0) continue;
+                snprintf(path, sizeof(path), "%s/%s", get_tmpdir(), e->d_name);
+                unlink(path);
+        }
+        closedir(d);
+}
+
+static int forked(kv_op_fn fn, int argc, char **argv, FILE *out)
+{
+        int pfd[2];
+        get_tmpdir();
+        fflush(out); fflush(stdout); fflush(stderr);
+        if(pipe(pfd) != 0){ perror("pipe"); exit(3); }
+        pid_t pid = fork();
+        if(pid < 0){ perror("fork"); exit(3); }
+        if(pid == 0){
+                close(pfd[0]);
+                FILE *o = fdopen(pfd[1], "w");
+                int r = fn(argc, argv, o);
+                fflush(o); fflush(stdout); fflush(stderr);
+                _exit(r ? 3 : 0);
+        }
+        close(pfd[1]);
+        size_t cap = 1 << 16, n = 0;
+        char *buf = malloc(cap);
+        ssize_t k;
+        while((k = read(pfd[0], buf + n, cap - n)) > 0){
+                n += (size_t)k;
+                if(n == cap){ cap *= 2; buf = realloc(buf, cap); }
+        }
+        close(pfd[0]);
+        int st = 0;
+        waitpid(pid, &st, 0);
+        int rc = 0;
+        if(WIFEXITED(st) && WEXITSTATUS(st) == 0){
+                fwrite(buf, 1, n, out);
+        }else if(WIFEXITED(st) && WEXITSTATUS(st) == 3){
+                rc = 1;
+        }else{
+                fprintf(out, "fault");
+                clean_tmpdir();
+        }
+        free(buf);
+        return rc;
+}
+
+static int f_read(int argc, char **argv, FILE *out){ return forked(op_read, argc, argv, out); }
+static int f_read_as(int argc, char **argv, FILE *out){ return forked(op_read_as, argc, argv, out); }
+static int f_detect_format(int argc, char **argv, FILE *out){ return forked(op_detect_format, argc, argv, out); }
+static int f_write(int argc, char **argv, FILE *out){ return forked(op_write, argc, argv, out); }
+static int f_write_read(int argc, char **argv, FILE *out){ return forked(op_write_read, argc, argv, out); }
+
+struct kv_op kv_ops_io[] = {
+        {"read", f_read},
+        {"read_as", f_read_as},
+        {"detect_format", f_detect_format},
+        {"parse_format", op_parse_format},
+        {"write", f_write},
+        {"write_read", f_write_read},
+        {"gcg", op_gcg},
+        {NULL, NULL}
+};
